@@ -293,7 +293,7 @@ class CFG:
                 return lp
         raise AnalysisError("loop not found in CFG")
 
-    def count_range(self, lp, weight) -> tuple:
+    def count_range(self, lp, weight, skip_edge=None) -> tuple:
         """(min, max) total *weight(node)* over every path through one
         iteration of loop *lp*: from the head's body entry to a back edge or a
         break, with inner loops contracted (their body counted 0..inf -> we
@@ -317,6 +317,8 @@ class CFG:
             outs = []
             for m, lab in self.succ[n]:
                 if lab == "exc":
+                    continue
+                if skip_edge is not None and skip_edge(n, m, lab):
                     continue
                 if lab == "back" and m is head:
                     outs.append((0, 0))
